@@ -652,6 +652,8 @@ pub fn lookup(name: &str) -> Option<OpFn> {
                 r.extend(diff(bo.rotate_vector(u), -u));
                 r.extend(diff(Matrix3::from(bo), Matrix3::from(q)));
             }
+            // (from_arc on opposite vectors goes through from_axis_angle(axis, half turn), i.e. through sin/cos, which the exact
+            // run only interprets: that clause is evaluated natively, `c15.from_arc_opposite_axis_aligned`)
             ok(r)
         },
         // ---------------------------------------------------------------- C10
@@ -697,8 +699,19 @@ pub fn lookup(name: &str) -> Option<OpFn> {
             if p.left.val().cmp(&p.right.val()) == std::cmp::Ordering::Greater
                 || p.bottom.val().cmp(&p.top.val()) == std::cmp::Ordering::Greater { return Out::Skip; }
             let mut o = vec![p.top - ymax, p.bottom + ymax, p.right - ymax * aspect, p.left + ymax * aspect, p.near - near, p.far - far];
-            o.extend(diff(Matrix4::from(p), m));
+            // a reversed depth range (far < near) is legal for perspective() but rejected by the frustum
+            // constructor, so the comparison with the frustum matrix is made only for near <= far ...
+            if near.val().cmp(&far.val()) != std::cmp::Ordering::Greater {
+                o.extend(diff(Matrix4::from(p), m));
+            }
             o.extend(diff(Matrix4::from(pf), m));
+            // ... and the clause itself is checked directly in either order: the symmetric window's corners on the
+            // near plane go to the corners of the z = -1 face, the similar far-plane rectangle to z = +1
+            let one = X::int(1);
+            let a_ = m.transform_point(Point3::new(ymax * aspect, ymax, -near));
+            let b_ = m.transform_point(Point3::new(-(ymax * aspect), -ymax, -near));
+            let c_ = m.transform_point(Point3::new(ymax * aspect * far / near, ymax * far / near, -far));
+            o.extend([a_.x - one, a_.y - one, a_.z + one, b_.x + one, b_.y + one, b_.z + one, c_.x - one, c_.y - one, c_.z - one]);
             ok(o)
         },
         "o.proj.planar" => |a| {
@@ -804,6 +817,14 @@ pub fn lookup(name: &str) -> Option<OpFn> {
             r.extend(diff(<T3 as Transform<Point3<X>>>::transform_point(&m3, p3).to_vec(), m3 * p3.to_vec()));
             // sum over c of column c scaled by v[c]
             r.extend(diff(m3 * v3, m3.x * v3.x + m3.y * v3.y + m3.z * v3.z));
+            // combining two matrix transforms is the matrix product (column c of the result = A * column c of B), whatever
+            // the bottom row of either is
+            let two = X::int(2);
+            r.extend(diff(<Matrix4<X> as Transform<Point3<X>>>::concat(&m4, &m4), m4 * m4));
+            r.extend(diff(<Matrix4<X> as Transform<Point3<X>>>::concat(&m4, &(m4 * two)), m4 * (m4 * two)));
+            r.extend(diff(<Matrix4<X> as Transform<Point3<X>>>::concat(&m4.transpose(), &m4), m4.transpose() * m4));
+            r.extend(diff(<T3 as Transform<Point2<X>>>::concat(&m3, &(m3 * two)), m3 * (m3 * two)));
+            r.extend(diff(<T3 as Transform<Point3<X>>>::concat(&m3, &m3.transpose()), m3 * m3.transpose()));
             ok(r)
         },
         // C02 / C08: inverse_transform() of a matrix used as a transform is invert(), for every matrix (not only affine ones)
